@@ -447,3 +447,66 @@ Proof.
   intros t H. unfold reads_back. rewrite (render_parse t H).
   apply list_eqb_refl. rewrite Forall_forall. intros; apply hnode_eqb_refl.
 Qed.
+
+(* ------------------------------------------------------------------------------------------ *)
+(* texts of the parsed document: when no two text nodes are adjacent, exactly the non-empty texts  *)
+Definition txs (l : list hnode) : list str := flat_map texts_of l.
+
+Lemma txs_flush : forall k t, txs (flush (k, t)) = txs k ++ filter nonempty [t].
+Proof.
+  intros k t. unfold flush, flush_text, txs. cbn [fst snd]. destruct t; cbn [filter nonempty]; [now rewrite app_nil_r|].
+  now rewrite flat_map_app.
+Qed.
+
+Definition head_not_text (l : list hnode) : Prop := match l with [] => True | x :: _ => is_text x = false end.
+
+(* absorbing one tree *)
+Definition sep_step (t : hnode) : Prop :=
+  sepb t = true -> forall k txt, (txt <> [] -> is_text t = false) ->
+  txs (flush (absorb (k, txt) t)) = txs (flush (k, txt)) ++ filter nonempty (texts_of t).
+
+Lemma sep_list : forall ts, Forall sep_step ts -> no_adjacent_texts ts = true -> forallb sepb ts = true ->
+  forall k txt, (txt <> [] -> head_not_text ts) ->
+  txs (flush (fold_left absorb ts (k, txt))) = txs (flush (k, txt)) ++ filter nonempty (txs ts).
+Proof.
+  induction 1 as [|t r Ht _ IH]; intros Hadj Hsep k txt Hhd.
+  - cbn. now rewrite app_nil_r.
+  - cbn [forallb] in Hsep. apply andb_prop in Hsep. destruct Hsep as [Hst Hsr].
+    cbn [fold_left]. destruct (absorb (k, txt) t) as [k' txt'] eqn:E.
+    assert (Hr : no_adjacent_texts r = true).
+    { destruct r as [|b r']; [reflexivity|]. cbn [no_adjacent_texts] in Hadj. now apply andb_prop in Hadj. }
+    assert (Hhd' : txt' <> [] -> head_not_text r).
+    { intros Hne. destruct r as [|b r']; [exact I|]. cbn [head_not_text].
+      cbn [no_adjacent_texts] in Hadj. apply andb_prop in Hadj. destruct Hadj as [Hab _].
+      destruct t as [tag opts attrs kids|s|s|tag body]; cbn [absorb] in E; inv E; try (now elim Hne);
+        cbn [is_text andb negb] in Hab; now apply negb_true_iff in Hab. }
+    transitivity (txs (flush (k', txt')) ++ filter nonempty (txs r)); [apply IH; assumption|].
+    rewrite <- E. transitivity ((txs (flush (k, txt)) ++ filter nonempty (texts_of t)) ++ filter nonempty (txs r));
+      [f_equal; apply Ht; [assumption|exact (fun H => Hhd H)]|].
+    change (txs (t :: r)) with (texts_of t ++ txs r). rewrite filter_app. now rewrite <- app_assoc.
+Qed.
+
+Lemma sep_step_all : forall t, sep_step t.
+Proof.
+  induction t as [tag opts attrs kids IH|s|s|tag body] using hnode_ind'; intros Hs k txt Hhd.
+  - cbn [sepb] in Hs. apply andb_prop in Hs. destruct Hs as [Hadj Hsep].
+    cbn [absorb]. rewrite txs_flush. cbn [filter nonempty]. rewrite app_nil_r.
+    unfold txs at 1. rewrite flat_map_app. fold (txs (flush (k, txt))). cbn [flat_map texts_of]. rewrite app_nil_r.
+    fold (txs (flush (fold_left absorb kids ([], [])))).
+    rewrite (sep_list kids IH Hadj Hsep [] [] (fun H => False_ind _ (H eq_refl))).
+    rewrite txs_flush. cbn [txs flat_map filter nonempty app]. reflexivity.
+  - assert (txt = []) as -> by (destruct txt; [reflexivity|]; specialize (Hhd ltac:(discriminate)); discriminate).
+    cbn [absorb fst snd app texts_of]. rewrite !txs_flush. cbn [filter nonempty]. now rewrite app_nil_r.
+  - assert (txt = []) as -> by (destruct txt; [reflexivity|]; specialize (Hhd ltac:(discriminate)); discriminate).
+    cbn [absorb fst snd app texts_of]. rewrite !txs_flush. cbn [filter nonempty]. now rewrite app_nil_r.
+  - cbn [absorb]. rewrite txs_flush. cbn [filter nonempty texts_of]. rewrite !app_nil_r.
+    unfold txs at 1. rewrite flat_map_app. cbn [flat_map texts_of]. now rewrite !app_nil_r.
+Qed.
+
+Theorem normalize_texts : forall t, sepb t = true ->
+  flat_map texts_of (normalize [t]) = filter nonempty (texts_of t).
+Proof.
+  intros t H. unfold normalize. cbn [fold_left].
+  assert (E := sep_step_all t H [] [] (fun Hne => False_ind _ (Hne eq_refl))).
+  unfold txs in E. rewrite E. unfold flush, flush_text. cbn [fst snd flat_map app]. reflexivity.
+Qed.
